@@ -42,6 +42,8 @@ def check_case(ctx, case):
     new = copy.deepcopy(case)
     new["mods"][i] = dict(new["mods"][i], word=case["replacement"], feats=case.get("replacement_feats", []),
                           refs=case.get("replacement_refs", []))
+    if "replacement_rid" in case:
+        new["mods"][i]["rid"] = case["replacement_rid"]
     r1, p1, _ = impl.run_asm(asm.asm_op(new))
     if r1.split("\t")[0] != "ok":
         ctx.fail("replacing module {} by a valid module with the same overhangs makes the assembly fail: {}".format(
@@ -49,7 +51,18 @@ def check_case(ctx, case):
     else:
         s0, s1 = segments(p0, case), segments(p1, new)
         rid = "r{}".format(case["mods"][i]["rid"])
-        if [n for n, _ in s0] != [n for n, _ in s1]:
+        if "replacement_rid" in case:
+            # the replacement carries another input's record name: segments cannot be told apart by name, so
+            # compare the sequences — old product with the module's stretch exchanged for the expected one
+            a0, a1 = str(p0.seq), str(p1.seq)
+            k0 = segment_start(p0, rid)
+            seg0 = dict(s0).get(rid)
+            if k0 is None or seg0 is None:
+                ctx.fail("the product carries no segment attributed to the module {}".format(rid), case)
+            elif (a0[:k0] + case["expected_segment"] + a0[k0 + len(seg0):]).upper() != a1.upper():
+                ctx.fail("with the replacement named like another input, the new product is not the old one with only "
+                         "that module's segment replaced", case)
+        elif [n for n, _ in s0] != [n for n, _ in s1]:
             ctx.fail("the chain order changes after the replacement", case)
         else:
             for (n0, t0), (n1, t1) in zip(s0, s1):
@@ -115,6 +128,15 @@ def run(ctx):
             case["replacement_feats"] = [[1, "u5%d" % j, ["i%d" % rng.randint(max(1, L - 2), L)],
                                           [[a, min(n2, a + rng.randint(1, 6)), 1]]]
                                          for j, a in enumerate(rng.sample(range(n2 - 1), min(2, n2 - 1)))]
+        if rng.random() < 0.2:
+            # the replacement comes under the record name of another input (exports without accession, unnamed
+            # records), and that other input is a documented one (a reference, a cited feature)
+            others = [e for e in [case["vector"]] + case["mods"] if e is not case["mods"][i]]
+            o = rng.choice(others)
+            o["refs"] = [250 + rng.randrange(5)]
+            n3 = len(o["word"])
+            o["feats"] = list(o["feats"]) + [[2, "u61", ["i1"], [[p, p + 1, 1]]] for p in range(0, n3 - 1, 4)]
+            case["replacement_rid"] = o["rid"]
         case["position"] = i
         case["replacement"] = wd
         case["expected_segment"] = d2["o5"] + d2["t"]
